@@ -12,7 +12,11 @@ run_one() {
   rsync -a --exclude .git --exclude __pycache__ /repo/ "$S/"
   ( cd "$S" && git init -q . >/dev/null 2>&1; git -C "$S" apply --whitespace=nowarn /verif/seeded/$id/patch.diff ) 2>/dev/null || { echo "$id|$prop|PATCH-DOES-NOT-APPLY||" > $out/$id; rm -rf "$S"; return; }
   t0=$(date +%s)
-  VERIF_REPO="$S" VERIF_NPROC=4 /verif/check "$prop" --tier "$tier" > "$S/.out" 2>&1; rc=$?
+  # seeded/<id>/checks (optional): the mutant breaks the statement of another property than the one its author was given
+  for p in $(cat /verif/seeded/$id/checks 2>/dev/null || echo $prop); do
+    VERIF_REPO="$S" VERIF_NPROC=4 /verif/check "$p" --tier "$tier" > "$S/.out" 2>&1; rc=$?
+    prop="$p"; [ $rc -ne 0 ] && break
+  done
   t1=$(date +%s)
   sigs=$(grep '^  signature:' "$S/.out" | sed 's/  signature: //; s/ (.*//' | head -4 | tr '\n' ';')
   echo "$id|$prop|$rc|$((t1-t0))s|$sigs" > $out/$id
@@ -27,7 +31,7 @@ for id in $ids; do run_one $id & n=$((n+1)); [ $((n % 8)) -eq 0 ] && wait; done;
   echo "repository's own test-suite (162 passed / same 5 sympy failures) and has a demonstration that fails with it (see meta.json)."
   echo "exit 1 = the check printed a VIOLATION line (detected); exit 0 = missed."
   echo
-  echo "| mutant | property | check exit | wall | first violation signatures |"
+  echo "| mutant | check run | check exit | wall | first violation signatures |"
   echo "|---|---|---|---|---|"
   for id in $ids; do IFS='|' read a b c d e < $out/$id; echo "| $a | $b | $c | $d | $e |"; done
 } > seeded/RESULTS_$tier.md
